@@ -146,6 +146,12 @@ def examine(case):
                                      {"sql": stmt}, "str(statement with interval)"))
             except Unsupported as e:
                 res.skipped = str(e)[:40]
+        if case["via"] != "own" and struct_hash([case["fields"], d])[0] in "01234567":
+            # the same Interval object was rendered for another dialect (of the other template family) before: the literal
+            # it writes now is still the one of the dialect it is rendered for
+            other = ns.Dialects.POSTGRESQL if d in ("MYSQL", "ORACLE") else ns.Dialects.MYSQL
+            obj.get_sql(dialect=other)
+            str(ns.QUERY_CLASSES["mysql" if other is ns.Dialects.MYSQL else "postgresql"].from_(ns.Table("t")).select(ns.Field("a") + obj))
         text = obj.get_sql(**kw)
         nzc = sum(1 for v in case["fields"] if v)
         res.nontrivial = nzc >= 2
@@ -239,7 +245,9 @@ def examine(case):
     P = ns.QmarkParameter()
     ptext = obj.get_sql(parameter=P, **kw)
     got = list(P.get_parameters())
+    import enum as _enum
     want = [ns.ev(e) for e in elems if not e.startswith("F(")]
+    want = [w.value if isinstance(w, _enum.Enum) else w for w in want]       # an Enum member stands for its value
     try:
         nph = sum(1 for t in sqlspec.lex(ptext) if t.kind == "ph")
     except sqlspec.LexError:
